@@ -543,6 +543,11 @@ func (e *codecEngine) Exec(line string) (obs string, viol string) {
 			return "unknown x" + hex.EncodeToString([]byte(name)), viol
 		}
 		return strings.Join(append(append([]string{"ok", name}, w.ts...), fmt.Sprintf("rest=%d", rd.RemainingSize())), " "), viol
+	case "rfl", "rflinto":
+		if len(tk) < 3 {
+			return "bad-op", ""
+		}
+		return e.execReflect(tk)
 	case "write":
 		// Writer.Write on a Go value of the named kind, in a child process: a stack overflow is a
 		// fatal error in Go (not recoverable), so it has to be observed from outside
@@ -756,6 +761,8 @@ func (e *codecEngine) Generate(c *Ctx) {
 		o := c.Do("write " + k)
 		c.R.Hit("write:" + o)
 	}
+	// the reflective reader on Go slices / structs (what a user's CustomMessageReader calls)
+	e.reflectiveCases(c, g, "cfg "+memCap+" "+strings.Join(names, " "))
 	// the messages without a schema: implementation-side round trip only
 	e.unmodelledRoundTrips(c)
 }
